@@ -1516,8 +1516,11 @@ class GitTreeTransform(DiskTreeTransform):
                 mover.rollback()
                 raise
             else:
+                # Update the index before the replaced content is discarded:
+                # a failure in apply_deletions() must not leave the old index
+                # describing the new layout.
+                self._tree._apply_index_changes(index_changes)
                 mover.apply_deletions()
-        self._tree._apply_index_changes(index_changes)
         self._done = True
         self.finalize()
         return _TransformResults(modified_paths, self.rename_count)
